@@ -79,41 +79,75 @@ func VerifC03_AllocateDeallocateAsk() {
 	vReach("end")
 }
 
-// tryNode: the one place where node, queue chain and application are updated for a normal allocation
+// tryNode: the one place where node, queue chain and application are updated for a normal allocation.
+// World with concrete structure: app-1 holds one outstanding ask (ask-1) and one bound allocation (ask-2).
 func VerifC03_TryNode() {
-	w := vAppWorld("Accepted", "Running", "Completing")
-	n := vNode("n")
-	vAssume(appInv(w) && nodeInv(n.n, n.extra))
-	vAssume(w.has[0] && !w.ask[0].allocated)
-	vSplit("aask-1.placeholder")
-	vSplit("has.ask-2")
-	vSplit("aask-2.allocated")
-	vSplit("aask-2.placeholder")
-	// allocations already on the node are other applications' (keys alloc-1/alloc-2)
-	a := w.ask[0]
-	preN := snapNode(n.n)
-	preQ := chainSnap(w.c)
-	res, err := w.app.tryNode(n.n, a)
+	vPanics(false)
+	rec := &vRecorder{}
+	c := vChain()
+	app := vApp("app-1", c[0], rec)
+	app.stateMachine.SetState(vStr("state", "Accepted", "Running", "Completing"))
+	vSplit("state")
+	a := &Allocation{allocationKey: "ask-1", applicationID: "app-1", allocatedResource: vResQ("ask.res"), priority: int32(vRange("ask.prio", -2, 2)), allocLog: map[string]*AllocationLogEntry{}}
+	b := &Allocation{allocationKey: "ask-2", applicationID: "app-1", allocatedResource: vResQ("other.res"), allocated: true, nodeID: "node-2", allocLog: map[string]*AllocationLogEntry{}}
+	pos := false
+	for i := 0; i < vNK(); i++ {
+		if rv(a.allocatedResource, i) > 0 {
+			pos = true
+		}
+	}
+	vAssume(pos)
+	app.requests["ask-1"], app.requests["ask-2"] = a, b
+	app.sortedRequests.insert(a)
+	app.allocations["ask-2"] = b
+	app.pending = a.allocatedResource.Clone()
+	app.allocatedResource = b.allocatedResource.Clone()
+	app.askMaxPriority = a.priority
+	for l := 0; l < 3; l++ {
+		c[l].allocatedResource.AddTo(b.allocatedResource) // on top of what other applications hold
+		c[l].pending = a.allocatedResource.Clone()
+	}
+	n, extra := vSimpleNode("node-1")
+	preN := snapNode(n)
+	preQ := chainSnap(c)
+	preApp := vecOf(app.allocatedResource)
+	res, err := app.tryNode(n, a)
 	vAssert(err == nil, "D without a predicate plugin tryNode reports no error")
+	vAssert(nodeInv(n, extra), "I tryNode preserves the node ledger invariant")
 	if res != nil {
 		vAssert(res.ResultType == Allocated && res.NodeID == "node-1" && res.Request == a, "D tryNode announces the ask it was given on the node it was given")
-		vAssert(a.allocated && w.app.allocations["ask-1"] == a, "D a bound ask is allocated and listed by the application")
-		vAssert(n.n.allocations["ask-1"] == a, "D a bound ask is listed by the node")
+		vAssert(a.allocated && app.allocations["ask-1"] == a && n.allocations["ask-1"] == a, "D a bound ask is allocated and listed by the application and by the node")
+		fits, nodeMoved, queuesMoved, appMoved := true, true, true, true
 		for i := 0; i < vNK(); i++ {
-			vAssert(rv(a.allocatedResource, i) <= vmax0(preN.avail[i]), "N3 tryNode binds only what fitted the node's available resources")
-			vAssert(rv(n.n.allocatedResource, i) == preN.alloc[i]+rv(a.allocatedResource, i), "D the node moved by exactly the ask")
+			d := rv(a.allocatedResource, i)
+			if d > vmax0(preN.avail[i]) {
+				fits = false
+			}
+			if rv(n.allocatedResource, i) != preN.alloc[i]+d {
+				nodeMoved = false
+			}
 			for l := 0; l < 3; l++ {
-				vAssert(rv(w.c[l].allocatedResource, i) == preQ[l][i]+rv(a.allocatedResource, i), "D every queue on the path moved by exactly the ask")
+				if rv(c[l].allocatedResource, i) != preQ[l][i]+d || rv(c[l].pending, i) != 0 {
+					queuesMoved = false
+				}
+			}
+			if rv(app.allocatedResource, i) != preApp[i]+d || rv(app.pending, i) != 0 {
+				appMoved = false
 			}
 		}
-		vAssert(appInv(w), "I after a bind application and queue-chain books agree")
+		vAssert(fits, "N3 tryNode binds only what fitted the node's available resources")
+		vAssert(nodeMoved, "D the node moved by exactly the ask")
+		vAssert(queuesMoved, "D every queue on the path moved by exactly the ask, allocated up and pending down")
+		vAssert(appMoved, "D the application moved by exactly the ask, allocated up and pending down")
 	} else {
-		vAssert(!a.allocated, "D a refused ask stays outstanding")
-		vAssert(sameNodeSnap(preN, snapNode(n.n)), "Q3 a refusal (node or queue) leaves the node untouched")
-		vAssert(chainSnap(w.c) == preQ, "Q3 a refusal leaves every queue untouched")
-		vAssert(appInv(w), "I after a refusal the books are unchanged and consistent")
+		unchanged := !a.allocated && sameNodeSnap(preN, snapNode(n)) && chainSnap(c) == preQ && vecOf(app.allocatedResource) == preApp
+		for i := 0; i < vNK(); i++ {
+			if rv(app.pending, i) != rv(a.allocatedResource, i) {
+				unchanged = false
+			}
+		}
+		vAssert(unchanged, "Q3 a refusal (node or queue) leaves node, every queue and the application untouched and the ask outstanding")
 	}
-	vAssert(nodeInv(n.n, n.extra), "I tryNode preserves the node ledger invariant")
 	vReach("end")
 }
 
